@@ -148,15 +148,20 @@ func (ch *channel) Send(ctx async.Context, data []byte) status.Status {
 		return st
 	}
 
-	// Open channel
-	s.open()
-
 	// Decrement window
 	size := int32(len(data))
 	s.sendWindow.Add(-size)
 
-	// Send open/data
-	return s.sender.sendOpen(ctx, data)
+	// Send open/data, return the window when not sent
+	st := s.sender.sendOpen(ctx, data)
+	if !st.OK() {
+		s.sendWindow.Add(size)
+		return st
+	}
+
+	// Open channel
+	s.open()
+	return status.OK
 }
 
 // SendAndClose sends a close message with a payload.
@@ -172,29 +177,33 @@ func (ch *channel) SendAndClose(ctx async.Context, data []byte) status.Status {
 		return statusChannelClosed
 	}
 
-	// If opened, close, send data/close
-	if s.opened.Load() {
-		// Close channel in defer, the close message may be sent with the channel context.
-		defer s.close()
-
-		// Decrement window
-		size := int32(len(data))
-		s.sendWindow.Add(-size)
-
-		// Send message
-		return s.sender.sendClose(ctx, data)
-	}
-
-	// Open/close channel
-	s.open()
-	defer s.close()
-
 	// Decrement window
 	size := int32(len(data))
 	s.sendWindow.Add(-size)
 
-	// Send open/data/close
-	return s.sender.sendOpenClose(ctx, data)
+	// Send data/close or open/data/close,
+	// the message may be sent with the channel context, so close the channel afterwards.
+	var st status.Status
+	if s.opened.Load() {
+		st = s.sender.sendClose(ctx, data)
+	} else {
+		st = s.sender.sendOpenClose(ctx, data)
+	}
+
+	// When not sent because the context has ended, the channel stays as it is,
+	// free sends the close message.
+	switch st.Code {
+	case status.CodeCancelled, status.CodeTimeout:
+		if !s.closed.Load() {
+			s.sendWindow.Add(size)
+			return st
+		}
+	}
+
+	// Close channel
+	s.open()
+	s.close()
+	return st
 }
 
 // Receive
